@@ -239,4 +239,8 @@ def genWFb (p : Pos) (k : Sq) : Bool :=
   (allSq.all fun s => !(p.b[s] == (if p.wtm then WKING else BKING)) || s == k) &&
   (match p.ep with | some e => p.b[e] == 0 | none => true)
 
+/-- extra hypothesis of `evasions_complete`: no enemy king next to the mover's king -/
+def kingsApartB (p : Pos) (k : Sq) : Bool :=
+  allSq.all fun q => !(p.b[q] == pc (!p.wtm) 1) || !kingGeom k q
+
 end Chess.Texel
